@@ -203,6 +203,8 @@ PROPS["C08"] = {
 PROPS["C09"] = {
     "statement": "C09.refines_state / refines_out (every operation commutes with abs : World -> (ResId -> Option Token) and answers what the map answers), C09.typed_linear_invariant (type tag = key type; conservation of values), C09.mismatch_panics, C09.linear / dropped_exactly_once — all over histories that include values whose Drop panics and closures that panic; C09.insert_replaces_when_drop_panics, or_insert_occupied_drop_panics, or_insert_with_closure_panics, entry_stores_before_caller_panics, dropReturned_keeps_linear, dropWorld_panic_at_most_once (the interrupted drop of the world drops or leaks each value, never twice)",
     "engines": [world()],
+    # "presence queries and fetches agree": a fetch that answers None for a present resource
+    "also": {"C08": ["None was returned although the resource is present"]},
     "aspects": ["outcome", "state", "ghost"],
     "assumptions": [TYPES, "the unchecked downcasts (Fetch::deref, get_mut, remove) are modelled as 'type tag equals key type => the cast is right'"],
 }
